@@ -201,6 +201,9 @@ pub struct Arena {
     pub draws: Vec<u32>,
     pub max_decisions: usize,
     pub misaligned_pairs: usize,
+    /// opt-in (`dedupe`): outcomes of the comparisons decided since it was switched on; an identical comparison met again
+    /// takes the same outcome instead of following the shadow values (x || !x style re-tests after a forced flip)
+    pub decided: Option<HashMap<F, bool>>,
     /// 64-bit words handed to `Scalar::from_raw` that contain pieces of blob tokens but are not an 8-byte window of one blob
     pub unmodelled_words: usize,
     pub seed: u64,
@@ -232,6 +235,7 @@ impl Arena {
             draws: vec![],
             max_decisions: 20000,
             misaligned_pairs: 0,
+            decided: None,
             unmodelled_words: 0,
             seed: 0,
             force: None,
@@ -502,6 +506,11 @@ pub fn decide(f: F) -> bool {
                 return Pre::Done(*c == fq::ZERO);
             }
         }
+        if let Some(prev) = a.decided.as_ref().and_then(|m| m.get(&f).copied()) {
+            // the same comparison again on this path: same truth value (a forced-outcome entry meant for it is consumed)
+            let _ = a.force_queue.pop_front();
+            return Pre::Done(prev);
+        }
         let shadow = a.eval(&f);
         let pos = a.decisions.len();
         let imposed = if pos < a.prefix.len() {
@@ -532,12 +541,21 @@ pub fn decide(f: F) -> bool {
         }
     };
     with(|a| {
+        if let Some(m) = a.decided.as_mut() {
+            m.insert(f.clone(), outcome);
+        }
         a.decisions.push(Decision { cond: f, outcome, shadow, forced, label: a.cur_label });
         if a.decisions.len() > a.max_decisions {
             panic!("symex: decision budget exceeded ({})", a.max_decisions);
         }
     });
     outcome
+}
+
+/// Switch the same-comparison-same-outcome rule on (starting with an empty memory) or off.
+pub fn dedupe(on: bool) {
+    let on = on && std::env::var("VX_NO_DEDUPE").is_err();
+    with(|a| a.decided = if on { Some(HashMap::new()) } else { None })
 }
 
 pub fn eq_formula(x: Tid, y: Tid) -> F {
